@@ -96,10 +96,20 @@ pub fn run_case(isa: &str, kind: &str, src: u64, tramp: u64, fake: u64, v: bool,
 /// `prev_fake` != 0: the function already carries a fake (installed first, through the same emitter, its trampoline one page
 /// above `tramp`); the case proper is the SECOND installation on top of it
 pub fn run_case2(isa: &str, kind: &str, src: u64, tramp: u64, fake: u64, v: bool, case: u64, prev_fake: u64) {
+    run_case3(isa, kind, src, tramp, fake, v, case, prev_fake, &[])
+}
+
+/// `orig`: the target's own first bytes (a very short function, say), placed in the simulated memory beforehand
+#[allow(clippy::too_many_arguments)]
+pub fn run_case3(isa: &str, kind: &str, src: u64, tramp: u64, fake: u64, v: bool, case: u64, prev_fake: u64, orig: &[u8]) {
     ST.with(|s| {
         let mut s = s.borrow_mut();
         *s = SimState::default();
         s.tramp = tramp;
+        let b = if isa == "t32" || isa == "a32" { src & !1 } else { src };
+        for (i, x) in orig.iter().enumerate() {
+            s.mem.insert(b + i as u64, *x);
+        }
     });
     if prev_fake != 0 {
         ST.with(|s| s.borrow_mut().tramp = tramp.wrapping_add(0x1000));
@@ -215,8 +225,9 @@ pub fn run(script: &str, out: &str) {
         SCENARIO.store(u(&sc, "id"), SeqCst);
         if let Some(cases) = sc.get("cases").and_then(|x| x.as_array()) {
             for (k, c) in cases.iter().enumerate() {
-                run_case2(c.get("isa").and_then(|x| x.as_str()).unwrap_or(""), c.get("kind").and_then(|x| x.as_str()).unwrap_or("jump"),
-                    u(c, "src"), u(c, "tramp"), u(c, "fake"), u(c, "v") != 0, k as u64 + 1, u(c, "prev_fake"));
+                let orig: Vec<u8> = c.get("orig").and_then(|x| x.as_array()).map(|a| a.iter().filter_map(|x| x.as_u64().map(|y| y as u8)).collect()).unwrap_or_default();
+                run_case3(c.get("isa").and_then(|x| x.as_str()).unwrap_or(""), c.get("kind").and_then(|x| x.as_str()).unwrap_or("jump"),
+                    u(c, "src"), u(c, "tramp"), u(c, "fake"), u(c, "v") != 0, k as u64 + 1, u(c, "prev_fake"), &orig);
             }
         }
     }
